@@ -241,7 +241,7 @@ EXTENSIONS = {
     "run (engines that draw random numbers), and a checkpoint once published never disappears later in the same history.  Further "
     "configurations: /data sparser than two checkpoint intervals; every byte cut of the XYZ writes after the first checkpoint.  Depth 2 at "
     "journal granularity: the RESUMED process runs under the write journal too (from the images right after each checkpoint publication and "
-    "half-way to the next one) and every prefix / torn page split of that journal applied to its start image is a state.",
+    "just before the next one) and every prefix / torn page split of that journal applied to its start image is a state.",
     "C12": " Also: (a') the same driver object initialised for another equally padded batch first; (d) the real "
     "SurfaceHoppingDynamics object with a damping time and real CIS electronic structure: one-hot identification of the thermostat "
     "it applies, its n_dof against that thermostat's stationary state, two noise draws per real integrator step; (r) a thermostatted run interrupted after a checkpoint and finished by run_from_checkpoint is "
